@@ -35,7 +35,7 @@ MODEL = "model_of"
 RULE = ("A-cases: decorator configurations api in {attr.s, define, frozen} x auto_detect x auto_exc x slots x "
         "eq/cmp in {unset,T,F} x hash x unsafe_hash in {unset,T,F} (+ a non-bool in the malformed stream) x frozen x "
         "own __hash__ x own {__eq__,__ne__} x cache_hash x init in {default, init=False, own __init__} x base class "
-        "in {object, plain class with __hash__, Exception, attrs bases: frozen / frozen+cache_hash / unsafe_hash / "
+        "in {object, plain class with __hash__, Exception, BaseException, attrs bases: frozen / frozen+cache_hash / unsafe_hash / "
         "unsafe_hash+cache_hash / unhashable / eq=False / frozen caching exception / hashable exception / define-frozen, "
         "each dict and slotted}; thorough = the full product over 7 base kinds for attr.s and define plus seeded random "
         "configurations over everything; quick = every row of the decision-relevant product (api x auto_detect x "
@@ -175,6 +175,7 @@ _BASE_SPECS = {
     "obj": (lambda sl: object, False, False, "BHObj"),
     "plain": (lambda sl: _Plain, False, False, "BHObj"),
     "exc": (lambda sl: Exception, False, True, "BHObj"),
+    "bexc": (lambda sl: BaseException, False, True, "BHObj"),
     "fz": (lambda sl: _abase(object, sl, frozen=True), True, False, "BHGen"),
     "fzc": (lambda sl: _abase(object, sl, frozen=True, cache_hash=True), True, False, "BHCache"),
     "uh": (lambda sl: _abase(object, sl, unsafe_hash=True), False, False, "BHGen"),
@@ -196,7 +197,7 @@ def _cslot(cf):
 CORE_BASES = ["obj", "exc", "fz", "fzc", "uhc", "un", "xfzc"]
 ALL_BASES = list(_BASE_SPECS)
 # one representative per (frozen base, exception base)
-DECISION_BASES = {(False, False): ["obj", "plain", "uhc", "un", "uh", "eqf"], (False, True): ["exc", "xuh"],
+DECISION_BASES = {(False, False): ["obj", "plain", "uhc", "un", "uh", "eqf"], (False, True): ["exc", "xuh", "bexc"],
                   (True, False): ["fz", "fzc", "dfz"], (True, True): ["xfzc"]}
 
 
